@@ -171,6 +171,11 @@ fn parse_items(plan: &str) -> Vec<Item> {
 }
 
 fn run_blocking(echo: bool, limit: Option<usize>, end: &str, plan: &str) -> String {
+    run_blocking_mode(echo, limit, end, plan, false)
+}
+
+/// `io` = the handler uses the std::io::Read / Write adapters of WebsocketStream instead of recv / send
+fn run_blocking_mode(echo: bool, limit: Option<usize>, end: &str, plan: &str, io: bool) -> String {
     let items = parse_items(plan);
     let (srv, cli) = pair();
     let keep = srv.try_clone().unwrap(); // keeps the socket open after the WebsocketStream has been dropped
@@ -187,6 +192,25 @@ fn run_blocking(echo: bool, limit: Option<usize>, end: &str, plan: &str) -> Stri
                 if delivered >= n {
                     break;
                 }
+            }
+            if io {
+                use std::io::{Read, Write};
+                let mut buf = vec![0u8; 1 << 20];
+                match Read::read(&mut ws, &mut buf) {
+                    Ok(n) => {
+                        delivered += 1;
+                        log.push(format!("R:{}", digest(&buf[..n])));
+                        if echo && Write::write_all(&mut ws, &buf[..n]).is_err() {
+                            log.push("E:send".to_string());
+                            break;
+                        }
+                    }
+                    Err(_) => {
+                        log.push("E:io".to_string());
+                        break;
+                    }
+                }
+                continue;
             }
             let base = crate::meter::start();
             let r = ws.recv();
@@ -571,6 +595,8 @@ pub fn dispatch(name: &str, args: &[&str]) -> Option<String> {
             let limit = if args[1] == "-" { None } else { Some(args[1].parse::<usize>().unwrap()) };
             Some(run_blocking(echo, limit, args[2], args.get(3).copied().unwrap_or("-")))
         }
+        // c11_io <echo> <plan>: as c11_run .. - fin .., with the handler on the io::Read / io::Write adapters
+        "c11_io" => Some(run_blocking_mode(args[0] == "1", None, "fin", args.get(1).copied().unwrap_or("-"), true)),
         "c11_nb" => Some(run_nb(args.first().copied().unwrap_or("-"))),
         "c11_nbfree" => Some(run_nbfree(args[0].parse().unwrap(), args.get(1).copied().unwrap_or("-"))),
         "c11_hs" => Some(run_hs(&unhex(args[0]), &unhex(args.get(1).copied().unwrap_or("h")))),
